@@ -662,6 +662,11 @@ func TestC15(t *testing.T) {
 						v = violf("failed-submission-changed-state", "%s: the board refused the post (%v) but the node changed %v and the board holds %d message(s)", desc, clip(err1.Error(), 100), d, boardLen())
 						return
 					}
+					if !approval {
+						// the board goes away in the middle of the submission (after it has taken one write): whatever reached
+						// the board by then plus the operator's retry must still add up to the result's messages, once each
+						nd.View.FailSendCall = 2
+					}
 					if approval {
 						// twice unreachable before the board is back
 						nd.View.FailSends = 1
@@ -671,9 +676,19 @@ func TestC15(t *testing.T) {
 						}
 					}
 					if err2 := submit(); err2 != nil {
-						v = violf("retry-refused", "%s: after a failed post the operator's second attempt is refused: %v", desc, err2)
-						return
+						midway := !approval && nd.View.FailSendCall == 0 // the injected failure of the second write fired
+						if !midway {
+							v = violf("retry-refused", "%s: after a failed post the operator's second attempt is refused: %v", desc, err2)
+							return
+						}
+						// the board went away after taking one write of this submission; the operator tries once more
+						if err := submit(); err != nil {
+							v = violf("retry-refused", "%s: after a post that failed half-way (%v) the operator's retry is refused: %v", desc, clip(err2.Error(), 80), err)
+							return
+						}
+						st.Class("board-went-away-mid-submission")
 					}
+					nd.View.FailSendCall = 0
 					posted := boardLen()
 					ids, _, _ := pendingIDs(nd)
 					err3 := submit()
